@@ -382,6 +382,10 @@ class XArray:
 
     def __setitem__(self, key, value):
         shape, offs = self._resolve_index(key)
+        if self.dtype == "O" and shape == ():
+            # object array: one slot holds the value as it is (a list, an array, None)
+            self.data[offs[0]] = value
+            return
         if isinstance(value, (list, tuple)):
             value = XArray.from_nested(value)
         if isinstance(value, XArray):
